@@ -4,17 +4,17 @@ CONSTANTS
   P <- PC
   Z0 <- Z0C
   Family = "cyl"
-  NrC = 4
-  NzC = 8
-  PZC = FALSE
+  NrC = 3
+  NzC = 6
+  PZC = TRUE
   DR = 4
   DZ = 4
-  Z0P = 13
-  Mode = "render"
-  R2S <- R2Sdef_q_cyl_ren
+  Z0P = 16
+  Mode = "free"
+  R2S <- R2Sdef_dev_cylp_span
   ZStep = 1
   CentralRule = "halfopen"
-  SpanRule = "whole"
+  SpanRule = "one-period"
 INVARIANT SingleCorrect
 INVARIANT PeriodicCorrect
 INVARIANT SpanSound
